@@ -69,6 +69,10 @@ enum Status {
     Running,
     Parked(Op),
     Finished,
+    /// main has not come back to the scheduler for `BLOCK_MS` while every other thread is parked: it is taken to be
+    /// blocked in a call the model does not see (e.g. `JoinHandle::join` at a place without a hook); the other
+    /// threads go on, and if none of them can move the state is a deadlock
+    BlockedOutside,
 }
 
 struct Th {
@@ -144,6 +148,15 @@ pub const ALT_NONE: usize = usize::MAX - 1;
 pub const ALT_QUEUED: usize = usize::MAX - 2;
 /// how long a RecvExt waits for the remaining live sender handles to arrive before deciding without them
 const EXT_GRACE_MS: u128 = 1500;
+/// how long main may stay away from the scheduler (all others parked) before it is taken to be blocked outside the model
+const BLOCK_MS: u128 = 2500;
+static LAST_PROGRESS: Mutex<Option<std::time::Instant>> = Mutex::new(None);
+fn progress() {
+    *LAST_PROGRESS.lock().unwrap() = Some(std::time::Instant::now());
+}
+fn since_progress_ms() -> u128 {
+    LAST_PROGRESS.lock().unwrap().map(|t| t.elapsed().as_millis()).unwrap_or(0)
+}
 
 static CONTROLLED: std::sync::OnceLock<bool> = std::sync::OnceLock::new();
 static POSTOPS: std::sync::OnceLock<bool> = std::sync::OnceLock::new();
@@ -269,6 +282,15 @@ impl State {
         self.threads
             .iter()
             .all(|t| t.status != Status::Running)
+    }
+
+    /// only main is running, nothing is granted and nothing has happened for a while
+    fn main_seems_blocked(&self) -> bool {
+        self.granted.is_none()
+            && self.threads[0].status == Status::Running
+            && self.threads.iter().skip(1).all(|t| t.status != Status::Running && t.status != Status::Pending)
+            && self.threads.iter().skip(1).any(|t| matches!(t.status, Status::Parked(_)))
+            && since_progress_ms() > BLOCK_MS
     }
 
     /// every thread parked on a RecvExt sees all live sender handles of its channel blocked in `send`
@@ -413,6 +435,7 @@ impl State {
                 Status::Running => "running".to_string(),
                 Status::Parked(op) => format!("parked@{}", op.short()),
                 Status::Finished => "finished".to_string(),
+                Status::BlockedOutside => "blocked-outside-the-model".to_string(),
             };
             s.push_str(&format!("{{\"name\":\"{}\",\"status\":\"{}\",\"ops\":{}}}", th.name, stat, th.ops_done));
         }
@@ -456,6 +479,7 @@ impl State {
         if en.is_empty() {
             self.dump_and_exit("deadlock", 3);
         }
+        progress();
         let pos = self.trace.len();
         let chosen = if pos < self.choices.len() {
             self.choices[pos]
@@ -597,6 +621,7 @@ pub fn park(op: Op) -> (usize, usize) {
         }
         st.threads[tid].status = Status::Parked(op.clone());
     }
+    progress();
     loop {
         let st = g.as_mut().unwrap();
         if let Some((gt, alt)) = st.granted {
@@ -620,8 +645,12 @@ pub fn park(op: Op) -> (usize, usize) {
             // senders outside the model are still on their way: look again shortly
             g = CV.wait_timeout(g, std::time::Duration::from_millis(20)).unwrap().0;
             continue;
+        } else if tid != 0 && st.main_seems_blocked() {
+            st.threads[0].status = Status::BlockedOutside;
+            st.events.push("main-blocked-outside".to_string());
+            continue;
         }
-        g = CV.wait(g).unwrap();
+        g = CV.wait_timeout(g, std::time::Duration::from_millis(250)).unwrap().0;
     }
 }
 
